@@ -126,9 +126,11 @@ func (gen *generator) newIndirectSymbol(ident ir.GlobalIdent, old *ast.IndirectS
 	default:
 		panic(fmt.Errorf("support for indirect symbol type %T not yet implemented", oldSymbol))
 	}
+	var symbolElemType types.Type
 	switch symbolType := symbolType.(type) {
 	case *types.PointerType:
 		typ.AddrSpace = symbolType.AddrSpace
+		symbolElemType = symbolType.ElemType
 	default:
 		panic(fmt.Errorf("support for indirect symbol type %T not yet implemented", symbolType))
 	}
@@ -136,6 +138,10 @@ func (gen *generator) newIndirectSymbol(ident ir.GlobalIdent, old *ast.IndirectS
 	kind := old.IndirectSymbolKind().Text()
 	switch kind {
 	case "alias":
+		// The aliasee is a pointer to the content type of the alias.
+		if !symbolElemType.Equal(contentType) {
+			return nil, errors.Errorf("content type of alias %q does not match the pointee type of its aliasee; expected %q, got %q", ident.Ident(), contentType, symbolElemType)
+		}
 		return &ir.Alias{GlobalIdent: ident, Typ: typ}, nil
 	case "ifunc":
 		return &ir.IFunc{GlobalIdent: ident, Typ: typ}, nil
